@@ -70,7 +70,7 @@ func modelStreamTags(l *mListener) string {
 // debug API and of LDS). They are configured with bind_port=false so that no socket is involved:
 // the property is about which listeners exist and with which configuration, live and in the dump.
 
-func listenerToV2(name string, l *mListener, withChain bool) *v2.Listener {
+func listenerToV2(pfx, name string, l *mListener, withChain bool) *v2.Listener {
 	addr, _ := net.ResolveTCPAddr("tcp", l.Addr)
 	ln := &v2.Listener{
 		ListenerConfig: v2.ListenerConfig{
@@ -91,13 +91,13 @@ func listenerToV2(name string, l *mListener, withChain bool) *v2.Listener {
 	if withChain {
 		ln.FilterChains = []v2.FilterChain{{FilterChainConfig: v2.FilterChainConfig{Filters: []v2.Filter{{
 			Type:   "proxy",
-			Config: map[string]interface{}{"downstream_protocol": "Http1", "upstream_protocol": "Http1", "router_config_name": l.RouterRef},
+			Config: map[string]interface{}{"downstream_protocol": "Http1", "upstream_protocol": "Http1", "router_config_name": pfx + l.RouterRef},
 		}}}}}
 	}
 	return ln
 }
 
-func listenerFromV2(ln *v2.Listener) mListener {
+func listenerFromV2(pfx string, ln *v2.Listener) mListener {
 	out := mListener{Addr: ln.AddrConfig, Inspector: ln.Inspector}
 	if ln.Addr != nil {
 		out.Addr = ln.Addr.String()
@@ -113,7 +113,8 @@ func listenerFromV2(ln *v2.Listener) mListener {
 	if len(ln.FilterChains) == 1 {
 		for _, f := range ln.FilterChains[0].Filters {
 			if f.Type == "proxy" {
-				out.RouterRef, _ = f.Config["router_config_name"].(string)
+				ref, _ := f.Config["router_config_name"].(string)
+				out.RouterRef = strings.TrimPrefix(ref, pfx)
 			}
 		}
 	}
@@ -124,8 +125,8 @@ func (l mListener) String() string {
 	return fmt.Sprintf("addr=%s router=%s inspector=%v idle=%ds stream_filter=%q", l.Addr, l.RouterRef, l.Inspector, l.IdleSec, l.StreamTag)
 }
 
-func liveAddOrUpdateListener(name string, o *op) error {
-	return server.GetListenerAdapterInstance().AddOrUpdateListener("", listenerToV2(name, o.Listener, o.Note != "no-filter-chain"))
+func liveAddOrUpdateListener(n names, o *op) error {
+	return server.GetListenerAdapterInstance().AddOrUpdateListener("", listenerToV2(n.pfx, n.l(o.L), o.Listener, o.Note != "no-filter-chain"))
 }
 
 func liveDeleteListener(name string) error {
@@ -168,17 +169,17 @@ func checkListeners(m *model, n names, d *dumped, last *op, fail failFn, st *cas
 		if !ok {
 			fail("listener/missing-from-dump:"+op, "listener %q was added but is not in the dumped configuration", name)
 		}
-		if lm, sm := listenerFromV2(live.Config()), listenerFromV2(&stored); lm.IdleSec != ml.IdleSec && sm.IdleSec != ml.IdleSec && last.Kind == "AddOrUpdateListener" {
+		if lm, sm := listenerFromV2(n.pfx, live.Config()), listenerFromV2(n.pfx, &stored); lm.IdleSec != ml.IdleSec && sm.IdleSec != ml.IdleSec && last.Kind == "AddOrUpdateListener" {
 			lm.IdleSec, sm.IdleSec = ml.IdleSec, ml.IdleSec
 			if lm == *ml && sm == *ml {
 				fail(sigLnIdle, "listener %q was updated with connection_idle_timeout=%ds (handler.go applies it to new connections) but its config and the dump still say %ds",
-					name, ml.IdleSec, listenerFromV2(&stored).IdleSec)
+					name, ml.IdleSec, listenerFromV2(n.pfx, &stored).IdleSec)
 			}
 		}
-		if got, want := listenerFromV2(live.Config()).String(), ml.String(); got != want {
+		if got, want := listenerFromV2(n.pfx, live.Config()).String(), ml.String(); got != want {
 			fail("listener/live-config-differs-from-model:"+op, "listener %q live %s, last written %s", name, got, want)
 		}
-		if got, want := listenerFromV2(&stored).String(), ml.String(); got != want {
+		if got, want := listenerFromV2(n.pfx, &stored).String(), ml.String(); got != want {
 			fail("listener/dumped-config-differs-from-model:"+op, "listener %q dumped %s, last written %s", name, got, want)
 		}
 		// what new streams of this listener get
